@@ -212,11 +212,13 @@ def ScratchTag():
 
 
 def _WriteCfg(name, body):
+  """Generated model configurations live under build/cfg (TLC is started in
+  spec/, so the returned path is relative to that directory)."""
   name = name.replace('.cfg', ScratchTag() + '.cfg')
-  path = os.path.join(common.SPEC, name)
+  path = os.path.join(common.BuildDir('cfg'), name)
   with open(path, 'w') as f:
     f.write(body)
-  return name
+  return os.path.relpath(path, common.SPEC)
 
 
 def RunGen(tag, fuel, max_stmt, max_tok=60, imports=False, simulate=None,
